@@ -9,6 +9,9 @@ From Coq Require Import Reals ZArith List String QArith PrimFloat.
 From PyLib Require Import PyVal PyBuiltins Ideal B64 B64Facts.
 From Gen Require Import M_base M_Angle.
 From Proofs.C04 Require Import C04_defs C04_grid C04_ideal.
+From PyLib Require B64Verified.
+From Spec Require AngleSpec.
+From Proofs.C04 Require C04_b64.
 Import ListNotations.
 
 (* [ideal] deg2dms of any real value in (-360,360) is (floor|x|, floor(frac|x| * 60), rest * 60, sign) ... *)
@@ -54,8 +57,27 @@ Proof. intros i ra fancy nd Hi Hn. split; [exact (grid_in_range i Hi) | exact (p
 Theorem C04_tuple_grid_b64 : forall i (ra : bool), 0 <= i < 4678 -> chk_tuple (grid i) ra = true.
 Proof. exact tuple_grid. Qed.
 
+(* [B64, EVERY finite float x] (RV = real value of a float, fin = finite, RN = round to nearest even;
+   a = |red360 x| is the reduced magnitude, which reduce_deg computes exactly):
+   deg2dms(x) = (floor a, floor p, RN((p - floor p) 60), +-1.0) with p = RN((a - floor a) 60);
+   degrees in 0..359, minutes in 0..59, 0 <= seconds < 60 (the products cannot round up to 60.0) *)
+Theorem C04_deg2dms_b64 : forall x : float, B64Verified.fin x ->
+  let a := Rabs (AngleSpec.red360 (B64Verified.RV x)) in
+  let de := Raux.Zfloor a in
+  let p := B64Verified.RN ((a - IZR de) * 60)%R in
+  let mi := Raux.Zfloor p in
+  exists se sg,
+    Angle_deg2dms B0 (VFloat x) = VTuple [VInt de; VInt mi; VFloat se; VFloat sg] /\
+    (0 <= de <= 359)%Z /\ (0 <= mi <= 59)%Z /\
+    B64Verified.fin se /\ B64Verified.RV se = B64Verified.RN ((p - IZR mi) * 60)%R /\
+    (0 <= B64Verified.RV se < 60)%R /\
+    ((0 <= AngleSpec.red360 (B64Verified.RV x))%R /\ sg = 1%float \/
+     (AngleSpec.red360 (B64Verified.RV x) < 0)%R /\ sg = (-1)%float).
+Proof. exact C04_b64.deg2dms_b64. Qed.
+
 Redirect "C04_deg2dms_ideal.assumptions" Print Assumptions C04_deg2dms_ideal.
 Redirect "C04_tuples_ideal.assumptions" Print Assumptions C04_tuples_ideal.
 Redirect "C04_inverse_ideal.assumptions" Print Assumptions C04_inverse_ideal.
 Redirect "C04_print_grid_b64.assumptions" Print Assumptions C04_print_grid_b64.
 Redirect "C04_tuple_grid_b64.assumptions" Print Assumptions C04_tuple_grid_b64.
+Redirect "C04_deg2dms_b64.assumptions" Print Assumptions C04_deg2dms_b64.
